@@ -117,6 +117,12 @@ func (t *TrackerActor) record(a Announce) {
 			a.Ambiguous = a.Reply == "noreply" || strings.Contains(a.Reply, "client gone")
 		}
 	}
+	if a.Proto == "http" && a.ReplyOK && t.ClientTimeout > 0 && simrt.Now()-a.At+t.LatSlack+300*time.Millisecond >= t.ClientTimeout {
+		// The reply was written close to the client's own time-out: it may have expired at
+		// the client while the bytes were on their way (then the client rightly retries).
+		a.Ambiguous = true
+		a.Reply += "(near client time-out)"
+	}
 	t.mu.Lock()
 	t.Log = append(t.Log, a)
 	t.mu.Unlock()
